@@ -1523,7 +1523,7 @@ func HarnessEntity() {
 	type keySpec struct{ isKeyType, primary, shard bool }
 	keySpecs := make([]keySpec, nKeys)
 	keys := []*sourcedef_j5pb.EntityKey{}
-	keyNames := []string{"fooId", "tenantId", "third"}
+	keyNames := []string{"fooId", "tenantId", "third", "regionCode", "v5"}
 	for i := range keySpecs {
 		ks := keySpec{isKeyType: flag(0, "keyTyped", true), primary: flag(0, "primary", true), shard: flag(0, "shard", false)}
 		if i == 0 {
